@@ -209,7 +209,7 @@ impl Check for C02 {
     }
     fn meta(&self) -> Meta {
         Meta {
-            rule: "chaos sessions as in C01; after every feed_str / feed(char) / resize the geometry invariants of the statement are evaluated through the public API; non-trivial = fed >= 1 character and >= 1 resize or feed() loop; distinct = distinct final-screen digests",
+            rule: "chaos sessions as in C01 (incl. resizes to and from very wide / very tall geometries, 513..70000 in one dimension); after every feed_str / feed(char) / resize the geometry invariants of the statement are evaluated through the public API; non-trivial = fed >= 1 character and >= 1 resize or feed() loop; distinct = distinct final-screen digests",
             assumptions: vec!["soft-wrap mark read through util::TextUnwrapper::push", "'col == cols only by printing with auto-wrap on' checked as necessary conditions: a Print/Rep was dispatched in the call (lock-step parser) or the cursor was already pending before it on the same row and the width did not change; and when the position is newly reached, auto-wrap (hidden-state tracker: DECSET/DECRST 7, restored contexts, RIS) was on at some print of the call", "a run in which avt panics is abandoned (C01's subject)"],
             real: vec!["avt::Vt", "avt::parser::Parser (lock-step)"],
             simulated: vec!["App", "Pipe (cuts, damage)", "Window", "Consumer"],
